@@ -49,45 +49,31 @@ func (h OperatorHooksWrapper) AfterOperatorKeyReplaced(
 	// should be cleared.
 	consAddr := oldKey.ToConsAddr()
 	if chainID == avstypes.ChainIDWithoutRevision(ctx.ChainID()) {
-		// is the oldKey already active? if not, we should not do anything.
-		// this can happen if we opt in with a key, then replace it with another key
-		// during the same epoch.
-		_, found := h.keeper.GetExocoreValidator(ctx, consAddr)
-		if found {
-			unbondingEpoch := h.keeper.GetUnbondingCompletionEpoch(ctx)
-			// nb: if operator sets key, it is not "at stake" till the end of the epoch.
-			// before that time, any key replacement will store a superfluous entry for pruning
-			// since the old key will not be in use.
-			// this technically gives an operator the opportunity to spam the pruning queue
-			// but it is not a security risk or a DOS vector given the cost charged.
-			h.keeper.AppendConsensusAddrToPrune(ctx, unbondingEpoch, consAddr)
-		} else {
-			// since this consAddr isn't active, we can remove it immediately.
-			h.keeper.operatorKeeper.DeleteOperatorAddressForChainIDAndConsAddr(
-				ctx, chainID, consAddr,
-			)
-		}
+		// always keep the reverse lookup of a replaced key until the unbonding epochs have ended.
+		// testing "is the key in the validator set right now" is not enough: a key that was in
+		// the set earlier (operator jailed, out-ranked or at zero power since) must stay
+		// resolvable for slashing, and a key that never was active is merely retained a little
+		// longer than necessary.
+		unbondingEpoch := h.keeper.GetUnbondingCompletionEpoch(ctx)
+		h.keeper.AppendConsensusAddrToPrune(ctx, unbondingEpoch, consAddr)
 	}
 }
 
 // AfterOperatorKeyRemovalInitiated is the implementation of the operator hooks.
 func (h OperatorHooksWrapper) AfterOperatorKeyRemovalInitiated(
-	ctx sdk.Context, operator sdk.AccAddress, chainID string, key keytypes.WrappedConsKey,
+	ctx sdk.Context, operator sdk.AccAddress, chainID string, _ keytypes.WrappedConsKey,
 ) {
 	// the impact of key removal is:
 	// 1. vote power of the operator is 0, which happens automatically at epoch end in EndBlock.
 	// this is because GetActiveOperatorsForChainID filters operators who are removing their
 	// keys from the chain.
 	// 2. X epochs later, the removal is marked complete in the operator module.
-	consAddr := key.ToConsAddr()
 	if chainID == avstypes.ChainIDWithoutRevision(ctx.ChainID()) {
-		_, found := h.keeper.GetExocoreValidator(ctx, consAddr)
-		if found {
-			h.keeper.SetOptOutInformation(ctx, operator)
-		} else {
-			h.keeper.operatorKeeper.DeleteOperatorAddressForChainIDAndConsAddr(
-				ctx, chainID, consAddr,
-			)
-		}
+		// always schedule the completion of the key removal. if this is made conditional on the
+		// current key being in the validator set, an operator that opts out before its key
+		// became active (or after replacing its active key in this epoch, or after dropping out
+		// of the set) is never scheduled: the removal marker and the forward lookups stay for
+		// ever, the operator cannot opt in again and its undelegations panic on a nil store key.
+		h.keeper.SetOptOutInformation(ctx, operator)
 	}
 }
